@@ -602,24 +602,24 @@ Example C18_try_succeeds_when_fits_refuted :
   option_map snd (sem_try_acquire e s 1) = Some AOk /\ sem_try_acquire e s 0 = None.
 Proof. vm_compute. repeat split; intros H; discriminate H. Qed.
 
-(* F-b (engine side, next to the "any waiter that fits may win" clause): reblock_if_unfair does not
+(* F-b / F17 (engine side, next to the "any waiter that fits may win" clause): reblock_if_unfair used not to
    exclude the current task.  A task that has a queued Acquire (5 permits) on an unfair semaphore and
-   then wins 1 permit itself, by try_acquire or by polling a second Acquire, marks ITSELF Blocked
-   while running: it is not scheduled again until some release fits its queued request.
-   Confirmed on the unchanged Rust code (external probe crate, check_dfs):
+   then wins 1 permit itself, by try_acquire or by polling a second Acquire, marked ITSELF Blocked
+   while running and was not scheduled again until some release fitted its queued request:
      let s = BatchSemaphore::new(1, Fairness::Unfair);
      block_on(async { let mut big = Box::pin(s.acquire(5));
                       assert!(poll_once(big.as_mut()).is_pending());
                       s.try_acquire(1).unwrap();          // or: s.acquire(1).await.unwrap();
                       thread::yield_now(); s.release(1); drop(big); })
-   panics with "deadlock! blocked tasks: [main-thread]"; the same program with the big Acquire
-   polled after the try_acquire passes. *)
-Example ex_unfair_winner_blocks_itself :
+   panicked with "deadlock! blocked tasks: [main-thread]" (confirmed on the Rust code; repaired by the
+   `fix:` commit recorded as F17 in known_findings.json: waiters of the running task are skipped).
+   The model mirrors the repaired code: the winner (task 1) stays Runnable. *)
+Example ex_unfair_winner_stays_runnable :
   let st0 := init_state (E 1) (sem_new 1 false [0;0;0;0]) in
   (option_map obs (run st0 [OpNewWaiter 5; OpPoll 0 1; OpTryAcquire 1]),
    option_map obs (run st0 [OpNewWaiter 5; OpPoll 0 1; OpNewWaiter 1; OpPoll 1 1])) =
   (Some (0, [0]%nat, [(5, false, true, 1%nat)],
-         false, [Runnable; Blocked false; Runnable; Runnable], 1, 0),
+         false, [Runnable; Runnable; Runnable; Runnable], 1, 0),
    Some (0, [0]%nat, [(5, false, true, 1%nat); (1, true, false, 1%nat)],
-         false, [Runnable; Blocked false; Runnable; Runnable], 0, 0)).
+         false, [Runnable; Runnable; Runnable; Runnable], 0, 0)).
 Proof. vm_compute. reflexivity. Qed.
